@@ -22,6 +22,8 @@ type KnownFinding struct {
 	InputClass string `json:"input_class,omitempty"`
 }
 
+var knownFindings []KnownFinding
+
 type job struct {
 	unit  *Unit
 	obl   *Obligation
@@ -86,6 +88,8 @@ func cmdCheck(args []string) int {
 	timeoutFlag := fs.Int("timeout", 0, "per-obligation timeout override (s)")
 	noEvidence := fs.Bool("no-evidence", false, "do not write the evidence file")
 	verbose := fs.Bool("v", false, "verbose")
+	noSlice := fs.Bool("no-slice", false, "disable relevance slicing of assumptions")
+	match := fs.String("match", "", "only obligations whose name/case contains this (debugging)")
 	fs.Parse(args)
 	if *prop == "" {
 		fmt.Fprintln(os.Stderr, "--prop required")
@@ -125,6 +129,7 @@ func cmdCheck(args []string) int {
 		}
 	}
 
+	knownFindings = known
 	// units
 	var units []*Unit
 	for _, k := range sortedKeys(p.contracts.Funcs) {
@@ -133,6 +138,13 @@ func cmdCheck(args []string) int {
 			continue
 		}
 		units = append(units, p.verifyFunc(fc))
+	}
+	for _, k := range sortedKeys(p.contracts.Scenarios) {
+		sc := p.contracts.Scenarios[k]
+		if !hasProp(sc.FC.Props, *prop) || (*only != "" && !strings.Contains(k, *only)) {
+			continue
+		}
+		units = append(units, p.verifyScenario(sc))
 	}
 	for _, k := range sortedKeys(p.contracts.Lemmas) {
 		lm := p.contracts.Lemmas[k]
@@ -190,12 +202,40 @@ func cmdCheck(args []string) int {
 				if phase1 && len(j.unit.VC.Splits) > 0 && j.obl.Kind != "split" && j.obl.Kind != "cover" {
 					to = 3
 				}
-				q := j.unit.VC.Query(j.obl, p.prelude, j.split, true)
 				tag := j.obl.Name
 				if j.cs != "" {
 					tag += "/" + j.cs
 				}
-				r := solve(q, workDir, tag, to, seed)
+				var r *Result
+				// relevance slicing: try with only the assumptions that share constants with the goal;
+				// only `unsat` answers of a sliced query are conclusive
+				if !j.obl.Cover && j.obl.nAssume > 12 && !*noSlice {
+					for depth := 0; depth <= 2 && r == nil; depth++ {
+						var keep map[int]bool
+						if depth == 0 {
+							keep = j.unit.VC.LightSlice(j.obl, 20000)
+						} else {
+							keep = j.unit.VC.Slice(j.obl, depth)
+						}
+						if len(keep) >= j.obl.nAssume {
+							break
+						}
+						qs := j.unit.VC.QuerySliced(j.obl, p.preludeFor(j.unit.Pkg), j.split, false, keep)
+						st := 4 * (depth + 1)
+						if st > to {
+							st = to
+						}
+						rs := solve(qs, workDir, tag+".slice", st, seed)
+						if rs.Status == "unsat" {
+							rs.Solver += fmt.Sprintf("(slice%d:%d/%d)", depth, len(keep), j.obl.nAssume)
+							r = rs
+						}
+					}
+				}
+				q := j.unit.VC.Query(j.obl, p.preludeFor(j.unit.Pkg), j.split, true)
+				if r == nil {
+					r = solve(q, workDir, tag, to, seed)
+				}
 				r.Unit = j.unit
 				r.Obl = j.obl
 				r.Case = j.cs
@@ -209,11 +249,19 @@ func cmdCheck(args []string) int {
 		return res
 	}
 	var phase1 []job
+	var deferred []string
 	for _, u := range units {
 		if u.Err != "" {
 			continue
 		}
 		for _, o := range u.VC.Obls {
+			if *match != "" && !strings.Contains(o.Name, strings.Split(*match, "/")[0]) {
+				continue
+			}
+			if o.Slow && *tier != "thorough" {
+				deferred = append(deferred, o.Name)
+				continue
+			}
 			phase1 = append(phase1, job{u, o, "", nil})
 		}
 	}
@@ -227,6 +275,9 @@ func cmdCheck(args []string) int {
 			continue
 		}
 		for _, c := range splitCases(j.unit.VC.Splits) {
+			if *match != "" && strings.Contains(*match, "/") && !strings.Contains(c.name, strings.SplitN(*match, "/", 2)[1]) {
+				continue
+			}
 			phase2 = append(phase2, job{j.unit, j.obl, c.name, c.asserts})
 		}
 	}
@@ -270,6 +321,10 @@ func cmdCheck(args []string) int {
 			name += "/" + r.Case
 		}
 		solverTime += r.Seconds
+		if r.OK() && r.Obl.Known != nil {
+			total-- // the known defect no longer shows on its input class (repaired): nothing to report
+			continue
+		}
 		if r.OK() {
 			discharged++
 			bySolver[r.Solver]++
@@ -281,6 +336,17 @@ func cmdCheck(args []string) int {
 			if *verbose {
 				fmt.Printf("ok   %-70s %s %.2fs\n", name, r.Solver, r.Seconds)
 			}
+			continue
+		}
+		if r.Obl.Known != nil {
+			// the listed input class of a known finding still fails: report it as such, never as a violation
+			key := r.Obl.Name
+			if !printedKnown[key] {
+				fmt.Printf("KNOWN-FINDING: property=%s %s: %s\n", *prop, strings.TrimSuffix(r.Obl.Name, "!known"), r.Obl.Known.What)
+				printedKnown[key] = true
+			}
+			knownHits++
+			total--
 			continue
 		}
 		// failed obligation
@@ -386,6 +452,7 @@ func cmdCheck(args []string) int {
 			"vcgen_s":               round3(vcSecs),
 			"solve_wall_s":          round3(solveSecs),
 			"known_findings_hit":    knownHits,
+			"deferred_to_thorough":  deferred,
 			"failed":                failed,
 			"samples":               samples,
 			"contract_files":        p.contracts.Files,
@@ -472,7 +539,13 @@ func splitCases(sp []SplitCase) []splitCase {
 					n += ","
 				}
 				n += fmt.Sprintf("%s=%d", sanitize(s.Src), k)
-				as := append(append([]T(nil), c.asserts...), mkEq(s.Term, litBig(s.Term.W(), bigInt(k))))
+				var eqn T
+				if s.BitsOf != "" {
+					eqn = T{fmt.Sprintf("(=bits %s %d %d %d)", s.BitsOf, s.BitHi, s.BitLo, k), BoolSort}
+				} else {
+					eqn = mkEq(s.Term, litBig(s.Term.W(), bigInt(k)))
+				}
+				as := append(append([]T(nil), c.asserts...), eqn)
 				next = append(next, splitCase{n, as})
 			}
 		}
